@@ -2,6 +2,7 @@
 from __future__ import annotations
 
 import io
+import copy
 import os
 import tempfile
 
@@ -62,7 +63,7 @@ def load_via(entry, text, position, comments):
         os.unlink(p)
 
 
-def check(text, case, entries=("workers",), plain=None):
+def check(text, case, entries=("workers",), plain=None, opts=None):
     W = env.Workers.get()
     out = []
     try:
@@ -70,7 +71,10 @@ def check(text, case, entries=("workers",), plain=None):
             plain = W.loads(text)
     except Exception as e:
         return [Discrepancy(f"plain_load:{type(e).__name__}", f"plain load failed: {e!s:.100}", case)]
-    t_plain = W.dumps(plain)
+    opts = dict(opts or {})
+    nlc = opts.get("newlinechar", "\n")
+    # (separate_complex_types is documented to reorder the dictionary it is given: print copies)
+    t_plain = W.dumps(copy.deepcopy(plain), **opts)
     ev_plain = None
     for position in (False, True):
         for comments in (False, True):
@@ -94,7 +98,7 @@ def check(text, case, entries=("workers",), plain=None):
                 if entry != entries[0]:
                     continue
                 try:
-                    t = W.dumps(d)
+                    t = W.dumps(copy.deepcopy(d), **opts)
                 except Exception as e:
                     out.append(Discrepancy(f"dumps:{flags}:{type(e).__name__}", f"dumps of the {flags} dictionary raised {type(e).__name__}: {e!s:.100}", dict(case, flags=flags)))
                     continue
@@ -109,10 +113,29 @@ def check(text, case, entries=("workers",), plain=None):
                     except reader.ReaderError as e:
                         out.append(Discrepancy(f"print_unreadable:{flags}", f"output with comments cannot be read: {e}", dict(case, flags=flags)))
                         continue
+                    if ev == ev_plain and bare_lines(t, nlc) != bare_lines(t_plain, nlc):
+                        a, b = bare_lines(t, nlc), bare_lines(t_plain, nlc)
+                        k = next((i for i, (x, y) in enumerate(zip(a, b)) if x != y), min(len(a), len(b)))
+                        out.append(Discrepancy(f"print_layout:{flags}", f"with the comment text removed the {flags} dictionary is laid out differently from the plain one: "
+                                               f"{a[k:k + 1]} vs {b[k:k + 1]} (options {opts})", dict(case, flags=flags, opts=opts)))
                     if ev != ev_plain:
                         k = next((i for i, (a, b) in enumerate(zip(ev, ev_plain)) if a != b), min(len(ev), len(ev_plain)))
                         out.append(Discrepancy(f"print:{flags}:{(ev_plain[k:k + 1] or [('?',)])[0][0]}", f"apart from comments the {flags} dictionary prints differently: {ev[k:k + 2]} vs {ev_plain[k:k + 2]}", dict(case, flags=flags)))
     return out[:2]
+
+
+def bare_lines(t, nlc):
+    """The printed text with every comment blanked out, as lines without trailing white space and without the
+    lines that held nothing but a comment ("apart from comment text, exactly what the plain dictionary prints")."""
+    from .. import scanner
+
+    chars = list(t)
+    for c in scanner.scan(t):
+        raw = c.raw.rstrip("\r") if c.raw.startswith("#") else c.raw   # (the CR of a CRLF line end is not comment text)
+        for i in range(c.off, c.off + len(raw)):
+            chars[i] = " "   # (line breaks inside a /* */ comment are comment text too)
+    lines = [l.rstrip(" \t") for l in "".join(chars).split(nlc)]
+    return [l for l in lines if l.strip()]
 
 
 def corpus_part(acc: Acc, tier, shard, nshards):
@@ -165,11 +188,17 @@ def search(acc: Acc, tier, shard, nshards):
         entries = ("workers",) if m > 4 else ("workers", ["loads", "open", "load_file", "load_stringio", "loads"][m])
         for e in entries:
             acc.cls("entry:" + e)
-        return check(text, {"text": text}, entries)
+        opts = None
+        if ch.chance(1, 2):
+            from .. import options
+
+            opts = options.draw(ch, quotes=['"'], linebreak_only=True, has_comments=True)
+            acc.cls("with_layout_options")
+        return check(text, {"text": text, "opts": opts}, entries, opts=opts)
 
     hyp_search(acc, ID, "documents", shard, n, body, tier)
 
 
 def replay(case):
     text = corpus.read(os.path.join(env.REPO, case["file"])) if "file" in case else case["text"]
-    return check(text, case, ("workers", "loads", "open", "load_file", "load_stringio"))
+    return check(text, case, ("workers", "loads", "open", "load_file", "load_stringio"), opts=case.get("opts"))
